@@ -107,6 +107,16 @@ func (s *stubT) Search(ctx context.Context, sctx *search.Context, b *board.Board
 	s.mu.Unlock()
 	s.c.Mark("stub.enter", k, depth)
 
+	// like a real search, the stub works ON the board it was given: while it "searches" a move is pushed, and it
+	// is taken back on the way out - slowly when halted (a search may take its time to unwind). Harmless on the
+	// fork the engine hands out; visible at once if the engine's own board were handed out.
+	pushed := false
+	for _, m := range b.Position().PseudoLegalMoves(b.Turn()) {
+		if b.PushMove(m) {
+			pushed = true
+			break
+		}
+	}
 	select {
 	case <-g:
 	case <-ctx.Done():
@@ -115,8 +125,15 @@ func (s *stubT) Search(ctx context.Context, sctx *search.Context, b *board.Board
 	s.parked--
 	s.mu.Unlock()
 	if contextx.IsCancelled(ctx) {
+		if pushed {
+			time.Sleep(time.Duration(200+int(gid%7)*300) * time.Microsecond)
+			b.PopMove()
+		}
 		s.c.Mark("stub.halted", k, depth)
 		return 0, eval.InvalidScore, nil, search.ErrHalted
+	}
+	if pushed {
+		b.PopMove()
 	}
 
 	var legal []board.Move
@@ -218,7 +235,7 @@ func randomScript(r *rand.Rand, stub bool) []stepT {
 		case x < 93:
 			steps = append(steps, stepT{Kind: "cmd", Arg: []string{"", "xyzzy", "setoption name Foo value 1", "debug on", "ponderhit", "  isready", "register later", "\t", "isready now",
 				"setoption name Hash value 1", "setoption name Hash value 0", "setoption name Depth value 2", "setoption name Depth value 0",
-				"setoption name Noise value 10", "setoption name OwnBook value false", "setoption name Hash", "setoption"}[r.Intn(17)]})
+				"setoption name Noise value 10", "setoption name OwnBook value false", "setoption name OwnBook value true", "setoption name Hash", "setoption"}[r.Intn(18)]})
 		default:
 			steps = append(steps, stepT{Kind: "pause", D: r.Intn(3)})
 		}
@@ -275,6 +292,10 @@ func directedScenarios() []directedT {
 				// 100 lines fill the output channel, 400 infos the ponder channel, one is in the loop's hand and the
 				// forwarder is blocked sending the next one
 				{Kind: "stall-until", Arg: "uci.fwd.pv", K: 502, D: 4000}, {Kind: "rawcmd", Arg: "quit"}},
+		},
+		{ // the output channel is exactly full (the GUI has not read 100 info lines) when isready and then quit arrive
+			name:  "isready-then-quit-with-full-output",
+			steps: fullOutputSteps(),
 		},
 		{ // quit while a completion is on its way
 			name: "quit-during-completion",
@@ -350,6 +371,18 @@ func directedAll() []directedT {
 	return ret
 }
 
+// fullOutputSteps: one info line per released iteration, none read, until the output channel (100 slots) is
+// full and the loop is idle; then isready and quit from a GUI that still does not read.
+func fullOutputSteps() []stepT {
+	steps := []stepT{{Kind: "cmd", Arg: "position startpos"}, {Kind: "cmd", Arg: "go infinite"}}
+	for d := 1; d <= 100; d++ {
+		steps = append(steps, stepT{Kind: "release-noread", K: 1, D: d}, stepT{Kind: "stall-until", Arg: "uci.loop.ponder", K: d, D: 2000})
+	}
+	// ... and keeps not reading until the driver has had time to shut down (if it took the quit at all)
+	return append(steps, stepT{Kind: "cmd-noread", Arg: "isready", D: 300}, stepT{Kind: "cmd-noread", Arg: "quit", D: 300},
+		stepT{Kind: "stall-until", Arg: "uci.fwd.exit", K: 1, D: 3000}, stepT{Kind: "stall", D: 60})
+}
+
 func ucisched(args []string) {
 	fs := flag.NewFlagSet("ucisched", flag.ExitOnError)
 	seed := fs.Int64("seed", 1, "seed")
@@ -360,6 +393,9 @@ func ucisched(args []string) {
 	path := fs.String("out", "", "output ndjson")
 	only := fs.String("only", "", "directed mode: run only this scenario")
 	scripts := fs.String("scripts", "", "script mode: json file of scenarios")
+	evlog := fs.String("evlog", "", "file that always holds the scenario record and the events recorded so far of the running scenario (read after a crash)")
+	final := fs.Bool("final", false, "script mode: re-run of scenarios that did not come to rest; a scenario that does not settle in -settle ms now is reported")
+	settle := fs.Int("settle", 5000, "how long (ms) to wait for a scenario to come to rest")
 	_ = fs.Parse(args)
 	if !verifhook.Enabled {
 		out.Fatalf("built without the verif tag: hooks are compiled out")
@@ -389,8 +425,20 @@ func ucisched(args []string) {
 		}
 		var opts = []string{}
 		_ = opts
-		w.Emit(out.M{"op": "scenario", "name": name, "steps": steps, "stub": useStub, "engine": spec.Name, "hash": spec.Hash, "noise": spec.Noise, "book": spec.Book})
+		w.Emit(out.M{"op": "scenario", "name": name, "steps": steps, "stub": useStub, "engine": spec.Name, "hash": spec.Hash, "noise": spec.Noise, "book": spec.Book,
+			"depth": spec.Depth, "seed": spec.Seed, "delay": dly, "directed": len(rules) > 0})
 		w.Flush()
+		if *evlog != "" {
+			if f, err := os.Create(*evlog); err == nil {
+				rec, _ := json.Marshal(out.M{"op": "scenario", "name": name, "steps": steps, "stub": useStub, "engine": spec.Name, "hash": spec.Hash, "noise": spec.Noise, "book": spec.Book})
+				_, _ = f.Write(append(rec, '\n'))
+				c.Log = f
+				defer f.Close()
+			}
+		}
+		if *final {
+			c.Mark("harness.final-run")
+		}
 		var s *ucih.Session
 		if useStub {
 			s = ucih.Start(ctx, e)
@@ -409,7 +457,7 @@ func ucisched(args []string) {
 			}
 		}
 		for _, st := range steps {
-			if st.Kind != "stall" && st.Kind != "stall-until" && st.Kind != "rawcmd" {
+			if st.Kind != "stall" && st.Kind != "stall-until" && st.Kind != "rawcmd" && !strings.HasSuffix(st.Kind, "-noread") {
 				flushOut()
 			}
 			switch st.Kind {
@@ -436,7 +484,7 @@ func ucisched(args []string) {
 				if st.Arg == "quit" {
 					closed = true
 				}
-			case "release":
+			case "release", "release-noread":
 				if stub != nil {
 					stub.Release(st.K, st.D)
 				}
@@ -454,6 +502,19 @@ func ucisched(args []string) {
 					stub.mu.Lock()
 					stub.auto = st.D
 					stub.mu.Unlock()
+				}
+			case "cmd-noread": // handed over by a GUI that is not reading: nothing is taken from the output meanwhile;
+				// if the driver does not take it within D ms (it may be blocked on its full output), the GUI reads again
+				if closed || s.Dead {
+					continue
+				}
+				if !s.SendNoRead(st.Arg, time.Duration(st.D)*time.Millisecond) {
+					if !s.Send(st.Arg, 10*time.Second) {
+						c.Mark("harness.undelivered", st.Arg)
+					}
+				}
+				if st.Arg == "quit" {
+					closed = true
 				}
 			case "rawcmd": // handed over without waiting for an idle loop (the loop may be busy writing output)
 				if closed || s.Dead {
@@ -476,12 +537,12 @@ func ucisched(args []string) {
 		// settle: wait until nothing moves any more (searches parked at gates count as idle). A loop
 		// that is neither idle nor gone is waiting in Halt for a first iteration: release those.
 		quiet := false
-		deadline := time.Now().Add(5 * time.Second)
+		deadline := time.Now().Add(time.Duration(*settle) * time.Millisecond)
 		if closed {
 			// after quit / end of input "at rest" means the driver has shut down; an idle loop that has not
 			// yet been scheduled to see the command is not at rest (and only a driver that stays alive for
 			// many seconds is reported as not shutting down)
-			deadline = time.Now().Add(20 * time.Second)
+			deadline = time.Now().Add(20*time.Second + time.Duration(*settle)*time.Millisecond)
 		}
 		stuckSince := time.Now()
 		for time.Now().Before(deadline) {
@@ -555,14 +616,38 @@ func ucisched(args []string) {
 			out.Fatalf("read %v: %v", *scripts, err)
 		}
 		var list []struct {
-			Name  string  `json:"name"`
-			Steps []stepT `json:"steps"`
+			Name   string  `json:"name"`
+			Steps  []stepT `json:"steps"`
+			Stub   *bool   `json:"stub"`
+			Engine string  `json:"engine"`
+			Hash   uint    `json:"hash"`
+			Noise  uint    `json:"noise"`
+			Depth  uint    `json:"depth"`
+			Book   bool    `json:"book"`
+			Seed   int64   `json:"seed"`
+			Delay  *int    `json:"delay"`
 		}
 		if err := json.Unmarshal(data, &list); err != nil {
 			out.Fatalf("parse %v: %v", *scripts, err)
 		}
 		for i, sc := range list {
-			run(sc.Name, sc.Steps, nil, true, ucih.EngineSpec{Name: "stub"}, []int{0, 25, 60}[i%3])
+			if sc.Stub == nil { // a behaviour generated from Uci.tla: stub search, three delay settings
+				run(sc.Name, sc.Steps, nil, true, ucih.EngineSpec{Name: "stub"}, []int{0, 25, 60}[i%3])
+				continue
+			}
+			// a recorded scenario run again (with its engine and delay setting)
+			spec := ucih.EngineSpec{Name: sc.Engine, Hash: sc.Hash, Noise: sc.Noise, Depth: sc.Depth, Book: sc.Book, Seed: sc.Seed}
+			dly := 0
+			if sc.Delay != nil {
+				dly = *sc.Delay
+			}
+			var rules []sched.Rule
+			for _, d := range directedAll() {
+				if d.name == sc.Name {
+					rules = d.rules
+				}
+			}
+			run(sc.Name, sc.Steps, rules, *sc.Stub, spec, dly)
 		}
 	case "directed":
 		for _, d := range directedAll() {
@@ -740,6 +825,23 @@ func realScript(r *rand.Rand) []stepT {
 		}
 	}
 	steps = append(steps, stepT{Kind: "cmd", Arg: g.line()})
+	if r.Intn(3) == 0 {
+		// rapid fire, no pauses: a search is stopped (or superseded) and the same game is continued at once, while
+		// the halted search may still be unwinding
+		for k := 0; k < 3+r.Intn(4); k++ {
+			steps = append(steps, stepT{Kind: "cmd", Arg: "go infinite"})
+			if r.Intn(2) == 0 {
+				steps = append(steps, stepT{Kind: "pause", D: r.Intn(3)})
+			}
+			if r.Intn(3) != 0 {
+				steps = append(steps, stepT{Kind: "cmd", Arg: "stop"})
+			}
+			g = extend(r, g, 1+r.Intn(2))
+			steps = append(steps, stepT{Kind: "cmd", Arg: g.line()})
+		}
+		steps = append(steps, stepT{Kind: "cmd", Arg: "go depth 1"}, stepT{Kind: "pause", D: 30}, stepT{Kind: "cmd", Arg: "isready"}, stepT{Kind: "pause", D: 10})
+		return steps
+	}
 	for i := 0; i < 1+r.Intn(3); i++ {
 		switch r.Intn(6) {
 		case 0:
